@@ -151,7 +151,7 @@ theorem eth_tagFor_dispatch (cx : Ctx) (e : Eth) (i : LayerInfo) (rest : List La
 
 theorem eth_view_false (e : Eth) (t : Nat) :
     layerView false (.l2 (.eth { e with ptype := t })) = layerView false (.l2 (.eth e)) := by
-  simp [layerView, AnyObj.info, info, Eth.fields, Fields.view, List.filter_cons]
+  simp [layerView, AnyObj.info, info, Eth.fields, Fields.view]
 
 /-- **EthernetII step** -/
 theorem eth_step (ps : List LayerInfo) (e : Eth) (os : List AnyObj) (hwf : e.WF) (hlink : Link (.eth e) (next os))
@@ -189,5 +189,333 @@ theorem eth_step (ps : List LayerInfo) (e : Eth) (os : List AnyObj) (hwf : e.WF)
     rw [etherInner_some hd]
     exact ⟨rfl, .inr hy⟩
   | bad => rw [hn] at hlink; simp [Link, etherLink] at hlink
+
+/-! ### the classes that carry an EtherType and derive it through `pdu_to_ether_type`: Dot1Q, SNAP, SLL -/
+
+/-- the common shape of `Dot1Q::write_serialization` / `SNAP::…` / `SLL::…`: `dflt` without an inner PDU, the inner
+    PDU's EtherType when it has one, else the stored value -/
+def headTag (cx : Ctx) (dflt stored : Nat) : Nat :=
+  match cx.inners.head? with
+  | none => dflt
+  | some i => if etherTagOf i != 0 then etherTagOf i else stored
+
+theorem dot1q_tagFor_eq (cx : Ctx) (q : Dot1Q) : Dot1Q.tagFor cx q = headTag cx 0 q.ptype := rfl
+theorem snap_tagFor_eq (cx : Ctx) (s : Snap) : Snap.tagFor cx s = headTag cx s.ethType s.ethType := rfl
+theorem sll_tagFor_eq (cx : Ctx) (s : Sll) : Sll.tagFor cx s = headTag cx s.protocol s.protocol := rfl
+
+theorem headTag_nil (ps : List LayerInfo) (d s : Nat) : headTag (cxOf ps []) d s = d := rfl
+theorem headTag_raw (ps : List LayerInfo) (p : Bytes) (d s : Nat) : headTag (cxOf ps [.raw p]) d s = s := by
+  simp [headTag, cxOf_inners_raw, etherTagOf_raw]
+theorem headTag_tier (ps : List LayerInfo) (y : Obj) (r : List AnyObj) (d s : Nat) (hy : EtherTier y) :
+    Tags.classOfEther (headTag (cxOf ps (.l2 y :: r)) d s) = some (info y).1 := by
+  have := etherTagOf_tier (info y).1 (etherTier_cls y hy) (info y).2 (hdr y)
+    (trl y ((infos r).map (fun l => l.hdr + l.trl)).sum)
+  simp [headTag, cxOf_inners_l2, this.1, this.2]
+
+/-- the inner-PDU decision of a class that dispatches on an EtherType `tag` (stored value `stored`) -/
+theorem ether_stepInner (x x' : Obj) (os : List AnyObj) (io : Bytes) (k' tag stored : Nat) (inner : Inner)
+    (hlink : etherLink stored (next os))
+    (hinner : inner = if io.length + k' > 0 then etherInner tag (io ++ List.replicate k' 0) else .none)
+    (htnil : os = [] → k' = 0 ∨ Tags.classOfEther tag = none)
+    (htraw : ∀ p, os = [.raw p] → tag = stored)
+    (htl2 : ∀ y r, os = .l2 y :: r → EtherTier y → Tags.classOfEther tag = some (info y).1)
+    (hview : ∀ p, os = [.raw p] → layerView (!p.isEmpty) (.l2 x') = layerView (!p.isEmpty) (.l2 x))
+    (hnil : os = [] → io = []) (hraw : ∀ p, os = [.raw p] → io = p)
+    (hpos : ∀ y r, os = .l2 y :: r → 0 < io.length) :
+    StepInner x x' os io k' inner := by
+  unfold StepInner
+  cases hn : next os with
+  | none =>
+    have hos := next_none hn
+    have hio := hnil hos
+    subst hio
+    refine ⟨k', Nat.le_refl _, ?_⟩
+    rcases htnil hos with h0 | hd
+    · subst h0; left; simp [hinner]
+    · by_cases hk : k' > 0
+      · right; simp [hinner, hk, etherInner_none hd]
+      · have : k' = 0 := by omega
+        subst this; left; simp [hinner]
+  | raw p =>
+    have hos := next_raw hn
+    have hio := hraw p hos
+    subst hio
+    rw [hn] at hlink
+    have hd : Tags.classOfEther tag = none := by rw [htraw io hos]; exact hlink
+    refine ⟨hview io hos, k', Nat.le_refl _, ?_⟩
+    by_cases hk : io.length + k' > 0
+    · right; simp only [hinner, hk, if_true, etherInner_none hd]
+    · left
+      have h1 : io.length = 0 := by omega
+      have h2 : k' = 0 := by omega
+      have h3 : io = [] := List.eq_nil_of_length_eq_zero h1
+      subst h2; subst h3
+      simp [hinner]
+  | l2 y r =>
+    have hos := next_l2 hn
+    rw [hn] at hlink
+    have hy : EtherTier y := hlink
+    have := hpos y r hos
+    have hk : io.length + k' > 0 := by omega
+    simp only [hinner, hk, if_true, etherInner_some (htl2 y r hos hy)]
+    exact ⟨trivial, .inr hy⟩
+  | bad => rw [hn] at hlink; exact hlink.elim
+
+theorem dot1q_view (q : Dot1Q) (t : Nat) (a b : Bool) (h : b = true → t = q.ptype) :
+    layerView b (.l2 (.dot1q { q with ptype := t, appendPadding := a })) = layerView b (.l2 (.dot1q q)) := by
+  cases b with
+  | false => simp [layerView, AnyObj.info, info, Dot1Q.fields, Fields.view]
+  | true => rw [h rfl]; simp [layerView, AnyObj.info, info, Dot1Q.fields, Fields.view]
+
+/-- `dot1q_reparse` with `k` zero bytes of an outer layer's padding behind the Dot1Q's own region -/
+theorem dot1q_reparse_junk (cx : Ctx) (q : Dot1Q) (h : q.WF) (region : Bytes)
+    (hl : region.length = 4 + cx.innerSize + q.trl cx.innerSize) (k : Nat) :
+    ∃ out, q.write cx region = .ok out ∧ out.length = region.length ∧
+      Dot1Q.parse (out ++ List.replicate k 0) = .ok ({ q with ptype := Dot1Q.tagFor cx q, appendPadding := false },
+        if region.length + k > 4 then
+          etherInner (Dot1Q.tagFor cx q) ((region.drop 4).take cx.innerSize ++ List.replicate (q.trl cx.innerSize + k) 0)
+        else .none) := by
+  have hb := dot1q_headerBytes_length { q with ptype := Dot1Q.tagFor cx q }
+  have hwf1 : ({ q with ptype := Dot1Q.tagFor cx q } : Dot1Q).WF := ⟨h.priority, h.cfi, h.id, dot1q_tagFor_lt cx q h⟩
+  have hlen : (({ q with ptype := Dot1Q.tagFor cx q } : Dot1Q).headerBytes ++ (region.drop 4).take cx.innerSize ++
+      List.replicate (q.trl cx.innerSize) 0).length = region.length := by
+    simp only [List.length_append, List.length_take, List.length_drop, List.length_replicate, hb]; omega
+  refine ⟨_, dot1q_write_eq cx q region hl, hlen, ?_⟩
+  have hlen2 : (({ q with ptype := Dot1Q.tagFor cx q } : Dot1Q).headerBytes ++ (region.drop 4).take cx.innerSize ++
+      List.replicate (q.trl cx.innerSize) 0 ++ List.replicate k 0).length = region.length + k := by
+    rw [List.length_append, hlen, List.length_replicate]
+  rw [dot1q_parse_eq, hlen2]
+  simp only [List.append_assoc]
+  rw [take_append_len _ _ 4 hb, drop_append_len _ _ 4 hb, dot1q_ofHeader_headerBytes _ hwf1, List.replicate_append_replicate]
+  have h1 : ¬ region.length + k < 4 := by omega
+  simp only [h1, if_false]
+
+/-- **Dot1Q step** -/
+theorem dot1q_step (ps : List LayerInfo) (q : Dot1Q) (os : List AnyObj) (hwf : q.WF) (hlink : Link (.dot1q q) (next os))
+    (region io : Bytes) (k : Nat)
+    (hlen : region.length = 4 + (cxOf ps os).innerSize + q.trl (cxOf ps os).innerSize)
+    (hio : (region.drop 4).take (cxOf ps os).innerSize = io) (hiol : io.length = (cxOf ps os).innerSize)
+    (hnil : os = [] → io = []) (hraw : ∀ p, os = [.raw p] → io = p) (hpos : ∀ y r, os = .l2 y :: r → 0 < io.length) :
+    ∃ out q' inner, q.write (cxOf ps os) region = .ok out ∧ out.length = region.length ∧
+      Dot1Q.parse (out ++ List.replicate k 0) = .ok (q', inner) ∧
+      layerView false (.l2 (.dot1q q')) = layerView false (.l2 (.dot1q q)) ∧
+      StepInner (.dot1q q) (.dot1q q') os io (q.trl (cxOf ps os).innerSize + k) inner := by
+  rcases dot1q_reparse_junk (cxOf ps os) q hwf region hlen k with ⟨out, hw, hl, hp⟩
+  rw [hio] at hp
+  refine ⟨out, _, _, hw, hl, hp, dot1q_view q _ false false (fun h => by cases h), ?_⟩
+  apply ether_stepInner _ _ os io _ (Dot1Q.tagFor (cxOf ps os) q) q.ptype _ hlink
+  · congr 1
+    apply propext
+    constructor <;> intro <;> omega
+  · intro hos; subst hos; right; rw [dot1q_tagFor_eq, headTag_nil]; exact classOfEther_zero
+  · intro p hos; subst hos; rw [dot1q_tagFor_eq, headTag_raw]
+  · intro y r hos hy; subst hos; rw [dot1q_tagFor_eq]; exact headTag_tier ps y r _ _ hy
+  · intro p hos; subst hos
+    exact dot1q_view q _ false _ (fun _ => by rw [dot1q_tagFor_eq, headTag_raw])
+  · exact hnil
+  · exact hraw
+  · exact hpos
+
+theorem snap_view (s : Snap) (t : Nat) (b : Bool) (h : b = true → t = s.ethType) :
+    layerView b (.l2 (.snap { s with ethType := t })) = layerView b (.l2 (.snap s)) := by
+  cases b with
+  | false => simp [layerView, AnyObj.info, info, Snap.fields, Fields.view]
+  | true => rw [h rfl]
+
+/-- **SNAP step** (SNAP is never below a padding layer: no padding behind it) -/
+theorem snap_step (ps : List LayerInfo) (s : Snap) (os : List AnyObj) (hwf : s.WF) (hlink : Link (.snap s) (next os))
+    (region io : Bytes) (hlen : region.length = 8 + (cxOf ps os).innerSize)
+    (hio : region.drop 8 = io) (hiol : io.length = (cxOf ps os).innerSize)
+    (hnil : os = [] → io = []) (hraw : ∀ p, os = [.raw p] → io = p) (hpos : ∀ y r, os = .l2 y :: r → 0 < io.length) :
+    ∃ out s' inner, s.write (cxOf ps os) region = .ok out ∧ out.length = region.length ∧
+      Snap.parse out = .ok (s', inner) ∧
+      layerView false (.l2 (.snap s')) = layerView false (.l2 (.snap s)) ∧
+      StepInner (.snap s) (.snap s') os io 0 inner := by
+  rcases snap_reparse (cxOf ps os) s hwf region (by omega) with ⟨out, hw, hl, hp⟩
+  rw [hio] at hp
+  refine ⟨out, _, _, hw, hl, hp, snap_view s _ false (fun h => by cases h), ?_⟩
+  apply ether_stepInner _ _ os io _ (Snap.tagFor (cxOf ps os) s) s.ethType _ hlink
+  · simp only [List.replicate_zero, List.append_nil, Nat.add_zero]
+    congr 1
+    apply propext
+    constructor <;> intro <;> omega
+  · intro _; left; rfl
+  · intro p hos; subst hos; rw [snap_tagFor_eq, headTag_raw]
+  · intro y r hos hy; subst hos; rw [snap_tagFor_eq]; exact headTag_tier ps y r _ _ hy
+  · intro p hos; subst hos
+    exact snap_view s _ _ (fun _ => by rw [snap_tagFor_eq, headTag_raw])
+  · exact hnil
+  · exact hraw
+  · exact hpos
+
+theorem sll_view (s : Sll) (t : Nat) (b : Bool) (h : b = true → t = s.protocol) :
+    layerView b (.l2 (.sll { s with protocol := t })) = layerView b (.l2 (.sll s)) := by
+  cases b with
+  | false => simp [layerView, AnyObj.info, info, Sll.fields, Fields.view]
+  | true => rw [h rfl]
+
+/-- **SLL step** -/
+theorem sll_step (ps : List LayerInfo) (s : Sll) (os : List AnyObj) (hwf : s.WF) (hlink : Link (.sll s) (next os))
+    (region io : Bytes) (hlen : region.length = 16 + (cxOf ps os).innerSize)
+    (hio : region.drop 16 = io) (hiol : io.length = (cxOf ps os).innerSize)
+    (hnil : os = [] → io = []) (hraw : ∀ p, os = [.raw p] → io = p) (hpos : ∀ y r, os = .l2 y :: r → 0 < io.length) :
+    ∃ out s' inner, s.write (cxOf ps os) region = .ok out ∧ out.length = region.length ∧
+      Sll.parse out = .ok (s', inner) ∧
+      layerView false (.l2 (.sll s')) = layerView false (.l2 (.sll s)) ∧
+      StepInner (.sll s) (.sll s') os io 0 inner := by
+  rcases sll_reparse (cxOf ps os) s hwf region (by omega) with ⟨out, hw, hl, hp⟩
+  rw [hio] at hp
+  refine ⟨out, _, _, hw, hl, hp, sll_view s _ false (fun h => by cases h), ?_⟩
+  apply ether_stepInner _ _ os io _ (Sll.tagFor (cxOf ps os) s) s.protocol _ hlink
+  · simp only [List.replicate_zero, List.append_nil, Nat.add_zero]
+    congr 1
+    apply propext
+    constructor <;> intro <;> omega
+  · intro _; left; rfl
+  · intro p hos; subst hos; rw [sll_tagFor_eq, headTag_raw]
+  · intro y r hos hy; subst hos; rw [sll_tagFor_eq]; exact headTag_tier ps y r _ _ hy
+  · intro p hos; subst hos
+    exact sll_view s _ _ (fun _ => by rw [sll_tagFor_eq, headTag_raw])
+  · exact hnil
+  · exact hraw
+  · exact hpos
+
+/-! ### Dot3, LLC, Loopback (never below a padding layer) -/
+
+theorem dot3_view (d : Dot3) (n : Nat) (b : Bool) :
+    layerView b (.l2 (.dot3 { d with len := n })) = layerView b (.l2 (.dot3 d)) := by
+  simp [layerView, AnyObj.info, info, Dot3.fields, Fields.view]
+
+/-- **Dot3 step** -/
+theorem dot3_step (ps : List LayerInfo) (d : Dot3) (os : List AnyObj) (hwf : d.WF) (hlink : Link (.dot3 d) (next os))
+    (region io : Bytes) (hlen : region.length = 14 + (cxOf ps os).innerSize)
+    (hio : region.drop 14 = io) (hiol : io.length = (cxOf ps os).innerSize)
+    (hpos : ∀ y r, os = .l2 y :: r → 0 < io.length) :
+    ∃ out d' inner, d.write (cxOf ps os) region = .ok out ∧ out.length = region.length ∧
+      Dot3.parse out = .ok (d', inner) ∧
+      layerView false (.l2 (.dot3 d')) = layerView false (.l2 (.dot3 d)) ∧
+      StepInner (.dot3 d) (.dot3 d') os io 0 inner := by
+  rcases dot3_reparse (cxOf ps os) d hwf region (by omega) with ⟨out, hw, hl, hp⟩
+  rw [hio] at hp
+  refine ⟨out, _, _, hw, hl, hp, dot3_view d _ false, ?_⟩
+  unfold StepInner
+  cases hn : next os with
+  | none =>
+    have hos := next_none hn; subst hos
+    have h0 : (cxOf ps []).innerSize = 0 := rfl
+    have : ¬ region.length > 14 := by omega
+    exact ⟨0, Nat.le_refl _, .inl ⟨by simp [this], rfl⟩⟩
+  | raw p => rw [hn] at hlink; simp [Link] at hlink
+  | l2 y r =>
+    have hos := next_l2 hn
+    rw [hn] at hlink
+    cases y <;> simp [Link] at hlink
+    have := hpos _ r hos
+    have h1 : region.length > 14 := by omega
+    simp [h1, info]
+  | bad => rw [hn] at hlink; simp [Link] at hlink
+
+theorem llc_fields_of_view (l l' : Llc) (h : l'.view = l.view) : l'.fields = l.fields := by
+  simp only [Llc.view, Prod.mk.injEq] at h
+  obtain ⟨h1, h2, h3, h4, h5, h6, h7, h8⟩ := h
+  simp only [Llc.fields, h1, h2, h3, h4, h5, h6, h7, h8]
+
+theorem llc_view (l : Llc) (b : Bool) : layerView b (.l2 (.llc l.normal)) = layerView b (.l2 (.llc l)) := by
+  simp only [layerView, AnyObj.info, info, llc_fields_of_view l l.normal (Llc.normal_view l)]
+
+theorem cxOf_innerCls_nil (ps : List LayerInfo) : (cxOf ps []).innerCls = none := rfl
+theorem cxOf_innerCls_raw (ps : List LayerInfo) (p : Bytes) : (cxOf ps [.raw p]).innerCls = some "RawPDU" := rfl
+theorem cxOf_innerCls_l2 (ps : List LayerInfo) (y : Obj) (r : List AnyObj) :
+    (cxOf ps (.l2 y :: r)).innerCls = some (info y).1 := rfl
+
+/-- **LLC step** (objects without XID information fields: KF-C04-L2-1) -/
+theorem llc_step (ps : List LayerInfo) (l : Llc) (os : List AnyObj) (hinv : l.Inv) (hlink : Link (.llc l) (next os))
+    (region io : Bytes) (hlen : region.length = l.hdr + (cxOf ps os).innerSize)
+    (hio : region.drop l.hdr = io)
+    (hnil : os = [] → io = []) (hraw : ∀ p, os = [.raw p] → io = p) :
+    ∃ out l' inner, l.write (cxOf ps os) region = .ok out ∧ out.length = region.length ∧
+      Llc.parse out = .ok (l', inner) ∧
+      layerView false (.l2 (.llc l')) = layerView false (.l2 (.llc l)) ∧
+      StepInner (.llc l) (.llc l') os io 0 inner := by
+  cases hn : next os with
+  | none =>
+    have hos := next_none hn; subst hos
+    rw [hn] at hlink
+    have hno : l.infos = [] := by simpa [Link] using hlink
+    rcases llc_api_reparse_partial (cxOf ps []) l hinv hno region (by omega) with ⟨out, hw, hl, hp⟩
+    rw [hio, llc_written_id _ l (by rw [cxOf_innerCls_nil]; simp), hnil rfl] at hp
+    refine ⟨out, _, _, hw, hl, hp, llc_view l false, ?_⟩
+    unfold StepInner
+    rw [hn]
+    exact ⟨0, Nat.le_refl _, .inl ⟨by simp [Llc.innerFor], rfl⟩⟩
+  | raw p =>
+    have hos := next_raw hn; subst hos
+    rw [hn] at hlink
+    have hl2 : l.infos = [] ∧ ¬ (l.dsap = 0x42 ∧ l.ssap = 0x42) := by simpa [Link] using hlink
+    rcases llc_api_reparse_partial (cxOf ps [.raw p]) l hinv hl2.1 region (by omega) with ⟨out, hw, hl, hp⟩
+    rw [hio, llc_written_id _ l (by rw [cxOf_innerCls_raw]; decide), hraw p rfl] at hp
+    refine ⟨out, _, _, hw, hl, hp, llc_view l false, ?_⟩
+    unfold StepInner
+    rw [hn]
+    refine ⟨llc_view l _, 0, Nat.le_refl _, ?_⟩
+    simp only [List.replicate_zero, List.append_nil, Llc.innerFor]
+    by_cases hp0 : p.length > 0
+    · right
+      have : (l.dsap == 0x42 && l.ssap == 0x42) = false := by
+        simp only [Bool.and_eq_false_imp, beq_iff_eq]
+        intro h1; simp only [beq_eq_false_iff_ne]; intro h2; exact hl2.2 ⟨h1, h2⟩
+      simp [hp0, this]
+    · left
+      have : p = [] := List.eq_nil_of_length_eq_zero (by omega)
+      subst this; simp
+  | l2 y r => rw [hn] at hlink; simp [Link] at hlink
+  | bad => rw [hn] at hlink; simp [Link] at hlink
+
+theorem loopback_view_false (l l' : Loopback) :
+    layerView false (.l2 (.loopback l')) = layerView false (.l2 (.loopback l)) := by
+  simp [layerView, AnyObj.info, info, Loopback.fields, Fields.view]
+
+theorem loopback_innerFor_raw (f : Nat) (h : LoopRaw f) (b : Bytes) : Loopback.innerFor f b = .raw b := by
+  unfold Loopback.innerFor
+  have h1 : (f == PF_INET) = false := by simpa using h.1
+  have h2 : (f == PF_INET6) = false := by simpa using h.2.1
+  have h3 : (f == PF_LLC) = false := by simpa using h.2.2
+  simp [h1, h2, h3]
+
+/-- **Loopback step** -/
+theorem loopback_step (ps : List LayerInfo) (l : Loopback) (os : List AnyObj) (hwf : l.WF)
+    (hlink : Link (.loopback l) (next os)) (region io : Bytes) (hlen : region.length = 4 + (cxOf ps os).innerSize)
+    (hio : region.drop 4 = io) (hnil : os = [] → io = []) (hraw : ∀ p, os = [.raw p] → io = p) :
+    ∃ out l' inner, l.write (cxOf ps os) region = .ok out ∧ out.length = region.length ∧
+      Loopback.parse out = .ok (l', inner) ∧
+      layerView false (.l2 (.loopback l')) = layerView false (.l2 (.loopback l)) ∧
+      StepInner (.loopback l) (.loopback l') os io 0 inner := by
+  rcases loopback_reparse (cxOf ps os) l hwf region (by omega) with ⟨out, hw, hl, hp⟩
+  rw [hio] at hp
+  refine ⟨out, _, _, hw, hl, hp, loopback_view_false _ _, ?_⟩
+  unfold StepInner
+  cases hn : next os with
+  | none =>
+    have hos := next_none hn; subst hos
+    rw [hn] at hlink
+    have hr : LoopRaw l.family := by simpa [Link] using hlink
+    rw [loopback_family_kept _ l (by rw [cxOf_innerCls_nil]; simp), loopback_innerFor_raw _ hr, hnil rfl]
+    exact ⟨0, Nat.le_refl _, .inr rfl⟩
+  | raw p =>
+    have hos := next_raw hn; subst hos
+    rw [hn] at hlink
+    have hr : LoopRaw l.family := by simpa [Link] using hlink
+    rw [loopback_family_kept _ l (by rw [cxOf_innerCls_raw]; decide), loopback_innerFor_raw _ hr, hraw p rfl]
+    exact ⟨rfl, 0, Nat.le_refl _, .inr (by simp)⟩
+  | l2 y r =>
+    have hos := next_l2 hn; subst hos
+    rw [hn] at hlink
+    cases y <;> simp [Link] at hlink
+    rename_i z
+    have hf : Loopback.familyFor (cxOf ps (.l2 (.llc z) :: r)) l = PF_LLC := by
+      simp [Loopback.familyFor, cxOf_innerCls_l2, info]
+    rw [hf]
+    simp [Loopback.innerFor, info, PF_LLC, PF_INET, PF_INET6]
+  | bad => rw [hn] at hlink; simp [Link] at hlink
 
 end Tins.Wire.L2
